@@ -17,8 +17,8 @@ pub const SPEC: PropSpec = PropSpec {
 	level: "exploration",
 	rule: "case = schema A (random, incl. same short names in different namespaces) + value: to_single_object must equal C3 01 ++ LE(bitwise CRC-64-AVRO of the reference canonical form) ++ to_datum(v); reading it back (slice and chunked reader) gives v; then (a) each of the 10 header bytes altered, (b) every truncation length 0..=min(len,24), (c) a schema B derived from A by one canonical-form-changing edit (rename a type / field, swap two fields, change a symbol or a fixed size, reorder union branches, edit inside the second of two same-short-name types) must reject A's message, (d) a re-spelling of A (other namespace notation, doc/aliases, logical type dropped or added) must accept it; distinct by hash(schema shape, message, edit)",
 	assumptions: &["a CRC collision between different canonical forms would be counted as inconclusive, not as a violation"],
-	cases: (30_000, 3_000_000),
-	secs: (45, 600),
+	cases: (50_000_000, 4_000_000_000),
+	secs: (30, 600),
 	required: &["layout_ok", "roundtrip_ok", "header_corruption_rejected", "truncation_rejected", "different_pcf_rejected", "same_pcf_accepted"],
 	run_case,
 	once: None,
